@@ -13,6 +13,7 @@ import (
 	"sort"
 	"strconv"
 	"strings"
+	"sync"
 	"time"
 )
 
@@ -224,10 +225,26 @@ func RunParent(o RunOpts) Summary {
 	}
 	recs := make(chan Record, 256)
 	doneW := make(chan bool)
+	var abortMu sync.Mutex
+	abort := false
+	var running []*exec.Cmd
+	isAborted := func() bool { abortMu.Lock(); defer abortMu.Unlock(); return abort }
+	doAbort := func() {
+		abortMu.Lock()
+		if !abort {
+			abort = true
+			for _, c := range running {
+				if c.Process != nil {
+					c.Process.Kill()
+				}
+			}
+		}
+		abortMu.Unlock()
+	}
 	for _, c := range chunks {
 		go func(c chunk) {
 			from := c.from
-			for from < c.to {
+			for from < c.to && !isAborted() {
 				cmd := exec.Command(o.Self, "worker", o.Prop, strconv.FormatInt(o.Seed, 10), strconv.Itoa(from), strconv.Itoa(c.to), o.Tier)
 				cmd.Env = append(os.Environ(), "GOMEMLIMIT=2GiB")
 				stdout, _ := cmd.StdoutPipe()
@@ -237,6 +254,9 @@ func RunParent(o RunOpts) Summary {
 					recs <- Record{I: from, Fatal: "cannot start worker: " + err.Error()}
 					break
 				}
+				abortMu.Lock()
+				running = append(running, cmd)
+				abortMu.Unlock()
 				rd := bufio.NewReaderSize(stdout, 1<<20)
 				cur := -1
 				finished := -1
@@ -261,7 +281,7 @@ func RunParent(o RunOpts) Summary {
 					}
 				}
 				werr := cmd.Wait()
-				if werr == nil && !timeout {
+				if (werr == nil && !timeout) || isAborted() {
 					break
 				}
 				// the worker died on case `cur`
@@ -309,6 +329,12 @@ func RunParent(o RunOpts) Summary {
 	keys := map[string]bool{}
 	tagSamples := map[string]bool{}
 	for rec := range recs {
+		if len(sum.Findings) >= 60 {
+			// enough is known: stop the workers instead of collecting thousands of repeats
+			doAbort()
+			sum.Dist["run:stopped-early-after-60-findings"] = 1
+			continue
+		}
 		sum.Evals++
 		if rec.Fatal != "" {
 			// re-derive the case description in-process is not safe (it may crash us too):
